@@ -1,4 +1,6 @@
 import Verif.Lemmas.C06
+import Verif.Lemmas.C06Writers
+import Verif.Driver.ExecEnv
 /-! # C06 — Parser stages expose exactly the fields of a line and never drop it
 
 Theorems over `LogQL.Stage.apply` for json / logfmt / regexp / pattern / unpack (tied to the code by the C06 correspondence).  The JSON and logfmt *readers* are reached through `Env` (`jsonObject`, `jsonExpr`, `logfmt`): statements are relative to what the reader returns for the line; the executable readers `Verif/Env/Json.lean`, `Logfmt.lean`, `JsonExpr.lean` are compared with go-faster/jx and go-logfmt by the correspondence.  The pattern stage is proved at byte level with no environment. -/
@@ -144,6 +146,52 @@ theorem C06_pattern_stage_roundtrip :
 theorem C06_cutBefore_of_noEarly :
     ∀ (sep v rest : Bytes), NoEarly sep v rest → Pattern.cutBefore (v ++ sep ++ rest) sep = (v, true) :=
   @cutBefore_of_noEarly
+
+/-! ## The readers themselves (hand-added): documents written canonically are read back exactly
+
+`ExecEnv.env` is the environment the correspondence runs the model with (`logfmt := Logfmt.read`,
+`jsonObject := Json.readObject`, the byte-level models of go-logfmt and go-faster/jx as the stages use
+them).  The next theorems remove the "relative to what the reader returns" clause for every document of
+the canonical written form: the stage exposes exactly the pairs that were written. -/
+
+/-- **C06 (logfmt reader)**: `k1="v1" k2="v2" …` reads back as exactly those pairs, without error -/
+theorem C06_logfmt_read_write :
+    ∀ (kvs : List (List Nat × List Nat)),
+      (∀ kv ∈ kvs, Logfmt.keyOK kv.1 = true ∧ Logfmt.valOK kv.2 = true) →
+        Logfmt.read (Logfmt.write kvs) = (kvs, false) :=
+  @C06Writers.logfmt_read_write
+
+/-- **C06 (JSON reader)**: `{"k1":v1,…}` with string / int64 / bool / null members reads back as exactly those members -/
+theorem C06_json_read_write :
+    ∀ (checkInt : Bool) (fs : List (List Nat × Json.JVal)),
+      Json.fieldsOK fs = true → Json.readObject checkInt (Json.writeObj fs) = (fs, false) :=
+  @C06Writers.json_read_write
+
+/-- **C06 (logfmt stage, end to end in the model)**: on a written line the stage sets exactly the written pairs, in order, and keeps the line -/
+theorem C06_logfmt_stage_exposes_written_pairs (ts : Int) (seen : Seen) (a : LogQL.Acc)
+    (kvs : List (List Nat × List Nat))
+    (hk : ∀ kv ∈ kvs, Logfmt.keyOK kv.1 = true ∧ Logfmt.valOK kv.2 = true)
+    (hl : a.line = Logfmt.write kvs) :
+    (Stage.apply ExecEnv.env ts (Stage.logfmt [] []) seen a).fst = some { a with labels := setAll a.labels kvs } := by
+  apply logfmt_all_fields
+  show Logfmt.read a.line = _
+  rw [hl]; exact C06Writers.logfmt_read_write kvs hk
+
+/-- **C06 (json stage, end to end in the model)**: on a written object the stage sets every non-null member under its sanitised key -/
+theorem C06_json_stage_exposes_written_fields (ts : Int) (seen : Seen) (a : LogQL.Acc)
+    (fs : List (List Nat × Json.JVal)) (hf : Json.fieldsOK fs = true) (hl : a.line = Json.writeObj fs) :
+    (Stage.apply ExecEnv.env ts (Stage.json [] []) seen a).fst =
+      some { a with labels := setAll a.labels (fs.filterMap fun (k, v) => (jvalText v).map (fun t => (KeyToLabel.run k, t))) } := by
+  apply json_all_fields
+  show Json.readObject false a.line = _
+  rw [hl]; exact C06Writers.json_read_write false fs hf
+
+/-- non-vacuity: a two-pair logfmt line with an escaped value; a JSON object with all four scalar kinds -/
+example : Logfmt.read (Logfmt.write [([97], [120, 32, 34, 10]), ([98, 99], [])]) = ([([97], [120, 32, 34, 10]), ([98, 99], [])], false) :=
+  C06_logfmt_read_write _ (by decide)
+example : Json.readObject false (Json.writeObj [([97, 34], .str [120, 10, 92]), ([98], .int (-42)), ([99], .bool true), ([], .null)])
+    = ([([97, 34], .str [120, 10, 92]), ([98], .int (-42)), ([99], .bool true), ([], .null)], false) :=
+  C06_json_read_write false _ (by decide)
 
 
 end LogQL.C06
